@@ -58,7 +58,7 @@ def make_morton(name, consts, N="2"):
     fns.append(Fn("morton_at", MORTON, ["struct morton", "struct non_owning_data_t"], "at",
                   ret="OUT_VEC_PTR_T", ptypes=["IN_VEC_T"], vec_types=["IN_VEC_T"],
                   method="const MORTON_SELF_T *self", members=["m_sizes"], arrays=["m_sizes"],
-                  subst=COMMON_SUBST + [("m_storage.at(", "backend_at(", 1), ("calculate_index(", "morton_calculate_index(", 1)],
+                  subst=COMMON_SUBST + [("m_storage.at(", "backend_at(", 0), ("calculate_index(", "morton_calculate_index(", 0)],
                   must={"R11_member": 1}))
     expr_subst = [("utility::ipow", "ipow", 1), ("utility::round_pow2", "round_pow2", 1), MAXEL] + COMMON_SUBST
     fns.append(Fn("morton_alloc_size_copy", MORTON, ["struct morton"], "make_morton_copy", kind="expr",
@@ -112,11 +112,11 @@ def make_hilbert(name, consts):
                   ptypes=["size_t", "size_t *", "size_t *", "size_t", "size_t"]))
     fns.append(Fn("hilbert_calculate_index", HILBERT, ["struct hilbert"], "calculate_index", ret="size_t",
                   ptypes=["IN_VEC_T", "ND_SIZE_T"], vec_types=["IN_VEC_T", "ND_SIZE_T"],
-                  subst=HILBERT_SUBST + [("rot(", "hilbert_rot(", 1)]))
+                  subst=HILBERT_SUBST + [("rot(", "hilbert_rot(", 0)]))
     fns.append(Fn("hilbert_at", HILBERT, ["struct hilbert", "struct non_owning_data_t"], "at",
                   ret="OUT_VEC_PTR_T", ptypes=["IN_VEC_T"], vec_types=["IN_VEC_T"],
                   method="const HILBERT_SELF_T *self", members=["m_sizes"], arrays=["m_sizes"],
-                  subst=HILBERT_SUBST + [("m_storage.at(", "backend_at(", 1), ("calculate_index(", "hilbert_calculate_index(", 1)],
+                  subst=HILBERT_SUBST + [("m_storage.at(", "backend_at(", 0), ("calculate_index(", "hilbert_calculate_index(", 0)],
                   must={"R11_member": 1}))
     expr_subst = [("utility::ipow", "ipow", 1), ("utility::round_pow2", "round_pow2", 1), MAXEL] + COMMON_SUBST
     fns.append(Fn("hilbert_alloc_size_copy", HILBERT, ["struct hilbert"], "make_hilbert_copy", kind="expr",
@@ -144,6 +144,56 @@ def make_array_at(name, consts):
     return Unit(name, [fn_array_at()], "contracts/array_at.h", "lemmas/array_at.c")
 
 
+# ---------------------------------------------------------------- clamp
+CLAMP = CORE + "backend/transformer/clamp.hpp"
+LAYER_SUBST = COMMON_SUBST + [
+    ("typename covariant_output_t::vector_t", "OUT_VEC_T", 0),
+    ("typename contravariant_output_t::vector_t", "B_IN_VEC_T", 0),
+    ("typename covariant_output_t::scalar_t", "OUT_SCALAR_T", 0),
+]
+MKSEQ = (r"(?s),\s*std::make_index_sequence\s*<[^;{}]*?>\s*\{\s*\}", "", 0, True)
+
+
+def make_clamp(name, consts, N="2"):
+    n = int(N)
+    fns = []
+    fns.append(Fn("clamp_adjust", CLAMP, ["struct clamp", "struct non_owning_data_t"], "adjust",
+                  ret="IN_VEC_T", ptypes=["IN_VEC_T", None], vec_types=["IN_VEC_T"],
+                  method="const CLAMP_SELF_T *self", members=["m_min", "m_max"], arrays=["m_min", "m_max"],
+                  subst=LAYER_SUBST + [("std::clamp(", "verif_std_clamp(", 0)],
+                  pack=("Is", list(range(n)), n, "IN_VEC_T"),
+                  must={"R8_pack": 1, "R11_member": 2}))
+    fns.append(Fn("clamp_at", CLAMP, ["struct clamp", "struct non_owning_data_t"], "at",
+                  ret="OUT_VEC_T", ptypes=["IN_VEC_T"], vec_types=["IN_VEC_T"],
+                  method="const CLAMP_SELF_T *self",
+                  subst=LAYER_SUBST + [MKSEQ, ("m_backend.at(", "backend_at(", 0), ("adjust(", "clamp_adjust(self, ", 0)]))
+    return Unit(name, fns, "contracts/clamp.h", "lemmas/clamp.c", stubs=["stubs/backend.h"])
+
+
+# ---------------------------------------------------------------- backup
+BACKUP = CORE + "backend/transformer/backup.hpp"
+
+
+def make_backup(name, consts):
+    fns = [Fn("backup_at", BACKUP, ["struct backup", "struct non_owning_data_t"], "at",
+              ret="OUT_VEC_T", ptypes=["IN_VEC_T"], vec_types=["IN_VEC_T"],
+              method="const BACKUP_SELF_T *self", members=["m_min", "m_max", "m_default"], arrays=["m_min", "m_max"],
+              subst=LAYER_SUBST + [("m_backend.at(", "backend_at(", 0)])]
+    return Unit(name, fns, "contracts/backup.h", "lemmas/backup.c", stubs=["stubs/backend.h"])
+
+
+# ---------------------------------------------------------------- nearest neighbour
+NN = CORE + "backend/transformer/nearest_neighbour.hpp"
+
+
+def make_nn(name, consts):
+    fns = [Fn("nn_at", NN, ["struct nearest_neighbour", "struct non_owning_data_t"], "at",
+              ret="OUT_VEC_T", ptypes=["IN_VEC_T"], vec_types=["IN_VEC_T", "B_IN_VEC_T"],
+              method="const NN_SELF_T *self",
+              subst=LAYER_SUBST + [("m_backend.at(", "backend_at(", 0), ("std::lrint(", "VERIF_LRINT(", 0), ("std::round(", "VERIF_ROUND(", 0)])]
+    return Unit(name, fns, "contracts/nn.h", "lemmas/nn.c", stubs=["stubs/backend.h"])
+
+
 def get_unit(name, consts=None):
     """name is 'base' or 'base@k=v,k=v' for units whose extraction depends on template arguments."""
     if name in UNITS:
@@ -158,3 +208,6 @@ FACTORIES["morton"] = make_morton
 FACTORIES["strided"] = make_strided
 FACTORIES["hilbert"] = make_hilbert
 FACTORIES["array_at"] = make_array_at
+FACTORIES["clamp"] = make_clamp
+FACTORIES["backup"] = make_backup
+FACTORIES["nn"] = make_nn
